@@ -577,6 +577,11 @@ def propagate_new_locals(fn, known_names, pure_only=False):
                     _, top, u = use_stmts[0]
                     if isinstance(top, (ast.For, ast.While, ast.If, ast.With, ast.Try)) and not _in_header(u, top, parent):
                         continue
+            # an expression that can raise is evaluated unconditionally where it is defined: it may not move into a
+            # position that is evaluated only sometimes (a branch of a conditional expression, a later operand of and/or,
+            # a lambda body, a comprehension element) - there it would no longer raise for the inputs that skip it
+            if _may_raise(E) and any(not _unconditional(u_, top_, parent) for _, top_, u_ in use_stmts):
+                continue
             sub = _Subst({v: E})
             for _, top, _u in use_stmts:
                 sub.visit(top)
@@ -589,6 +594,43 @@ def propagate_new_locals(fn, known_names, pure_only=False):
         if not progressed:
             break
     return done
+
+
+def _may_raise(e):
+    """anything but names, constants, attribute chains and tuples / comparisons-by-identity of those"""
+    for n in ast.walk(e):
+        if isinstance(n, (ast.Call, ast.BinOp, ast.Subscript, ast.Await, ast.Yield, ast.YieldFrom, ast.Starred)):
+            return True
+        if isinstance(n, ast.Compare) and not all(isinstance(o, (ast.Is, ast.IsNot)) for o in n.ops):
+            return True
+        if isinstance(n, ast.UnaryOp) and not isinstance(n.op, ast.Not):
+            return True
+    return False
+
+
+def _unconditional(u, top, parent):
+    """is the expression node `u` evaluated whenever the statement `top` (its header, for a compound statement) starts
+    to be evaluated?"""
+    n = u
+    while n is not None and n is not top:
+        p = parent.get(id(n))
+        if p is None:
+            break
+        if isinstance(p, ast.IfExp) and n is not p.test:
+            return False
+        if isinstance(p, ast.BoolOp) and p.values and p.values[0] is not n:
+            return False
+        if isinstance(p, ast.Lambda):
+            return False
+        if isinstance(p, (ast.ListComp, ast.SetComp, ast.DictComp, ast.GeneratorExp)):
+            if not (p.generators and n is p.generators[0]):
+                return False
+        if isinstance(p, ast.comprehension) and n is not p.iter:
+            return False
+        if isinstance(p, ast.stmt) and p is not top:
+            break   # nested statements of a compound `top`: judged by the rules above (header / body placement)
+        n = p
+    return True
 
 
 def _chain(n):
